@@ -36,6 +36,7 @@ CallViol(r) ==
     [] r.ev = "expand_all" -> ExpandAllViol(r)
     [] r.ev = "tokens" -> TokensViol(r)
     [] r.ev = "textchanges" -> TextChangesViol(r)
+    [] r.ev = "textchanges_tok" -> TextChangesTokViol(r)
     [] r.ev = "textops" -> TextOpsViol(r)
     [] r.ev = "identify" -> IdentifyViol(r)
     [] r.ev = "remap" -> RemapViol(r)
